@@ -14,7 +14,7 @@ package das
 //@ pure func covered(cp checkpoint, h uint64) bool = h >= cp.SampleFrom || has(cp.Failed, h) || (exists k int :: 0 <= k && k < len(cp.Workers) && cp.Workers[k].From <= h && h <= cp.Workers[k].To)
 
 //@ func newCheckpoint
-//@   property C04
+//@   property C04 C13
 //@   requires forall i int :: 0 <= i && i < len(stats.Workers) ==> stats.Workers[i].JobType == catchupJob || stats.Workers[i].JobType == recentJob || stats.Workers[i].JobType == retryJob
 //@   requires forall i int :: 0 <= i && i < len(stats.Workers) ==> stats.Workers[i].From <= stats.Workers[i].Curr && (stats.Workers[i].JobType == recentJob ==> stats.Workers[i].From == stats.Workers[i].To)
 //@   requires forall i int :: 0 <= i && i < len(stats.Workers) && stats.Workers[i].JobType == retryJob ==> (forall h uint64 :: stats.Workers[i].From <= h && h <= stats.Workers[i].To ==> has(stats.Failed, h))
